@@ -22,6 +22,7 @@ type Cfg struct {
 	LatMin, LatMax time.Duration // per-write latency
 	ChunkMax       int           // 0 = deliver everything available at once; else random 1..ChunkMax
 	ParkWrites     bool          // WS writes are scheduling points
+	Rate           int64         // bytes per second per direction (0 = unlimited): slow links
 }
 
 type DialEvent struct {
@@ -161,7 +162,8 @@ type stream struct {
 	rerr    error
 	rnotify chan struct{}
 
-	pendingEOF bool // sender closed: EOF after segs drain
+	nextAt     time.Time // bandwidth limit: no delivery before this time
+	pendingEOF bool      // sender closed: EOF after segs drain
 	eofSeen    bool
 	blackhole  bool
 	stallUntil time.Time
@@ -467,6 +469,9 @@ func (st *stream) deliverable(now time.Time) bool {
 	if st.cutAt >= 0 && st.dOff >= st.cutAt {
 		return false
 	}
+	if st.nextAt.After(now) {
+		return false
+	}
 	if len(st.segs) > 0 {
 		return !st.segs[0].due.After(now)
 	}
@@ -534,6 +539,8 @@ func (n *Net) NextDue(now time.Time) (time.Duration, bool) {
 			}
 			if len(st.segs) > 0 && st.segs[0].due.After(now) {
 				upd(st.segs[0].due)
+			} else if (len(st.segs) > 0 || st.pendingEOF) && st.nextAt.After(now) {
+				upd(st.nextAt)
 			}
 		}
 	}
@@ -544,9 +551,6 @@ func (n *Net) Idle() bool {
 	n.mu.Lock()
 	defer n.mu.Unlock()
 	for _, p := range n.pipes {
-		if !p.rtoAt.IsZero() {
-			return false
-		}
 		for _, st := range []*stream{p.c2s, p.s2c} {
 			if st.blackhole || st.rerr != nil {
 				continue
@@ -590,6 +594,12 @@ func (n *Net) deliver(st *stream) {
 	}
 	if st.cutAt >= 0 && st.dOff+int64(k) > st.cutAt {
 		k = int(st.cutAt - st.dOff)
+	}
+	if n.Cfg.Rate > 0 && k > 0 {
+		if max := int(n.Cfg.Rate/4) + 1; k > max && n.Cfg.ChunkMax == 0 {
+			k = max // at most a quarter second worth of bytes per delivery
+		}
+		st.nextAt = time.Now().Add(time.Duration(int64(k) * int64(time.Second) / n.Cfg.Rate))
 	}
 	st.rbuf = append(st.rbuf, sg.data[:k]...)
 	st.dOff += int64(k)
